@@ -158,6 +158,38 @@ def r2_scoped_id(c, facts):
             v = const_bool_arg(t, 2) if len(t['args']) > 2 else None
             if v == want:
                 c.ok(R, {'fn': q, 'scoped': v == '1'})
+            elif v is None and want == '1':
+                # a computed flag: leaving the scope out is right only for an expression whose value does not depend on where it
+                # is evaluated - it mentions no binder at all (a parameter *or* the binder of an enclosing rec, whose value is the
+                # scoped name of that rec). The function that computes the flag may ask whether a definition is a Binding and
+                # nothing narrower: a decision that looks at what kind of binder it is lets some of them through.
+                idx0 = MF.defs_index(fn)
+                sl = MF.slice_back(fn, t['args'][2]['l'], idx0) if 'l' in t['args'][2] else {'calls': []}
+                helpers = [facts.fns.get((callee_of(ct) or {}).get('id')) for x, ct, _ in sl['calls']]
+                helpers = [h for h in helpers if h is not None and h.mir and h.crate == 'oal_compiler']
+                # (the anchor is the normalised view: a new private helper is spliced in, its closures are in the family)
+                known = facts.known_fns_or_aliases()
+                helpers += [g for g in facts.family(facts.fns.get(fn.id, fn)) if g.mir and g.id != fn.id and g.qname not in known and g not in helpers]
+                casts = set()
+                for h in helpers:
+                    for g in [h] + list(facts.closures_of(h)):
+                        if g.mir:
+                            for _, ct in g.calls():
+                                # `K::cast(x)` called, or handed as a function item to an adaptor (`filter_map(K::cast)`)
+                                infos = [callee_of(ct) or {}] + [a['fn'] for a in ct['args'] if isinstance(a.get('fn'), dict)]
+                                for info in infos:
+                                    if (info.get('def') or '').endswith('AbstractSyntaxNode::cast'):
+                                        mm = re.search(r'parser::(\w+)', info.get('self_ty') or '')
+                                        if mm:
+                                            casts.add(mm.group(1))
+                inst = {'fn': q, 'scoped': 'computed', 'decided on': sorted(casts)}
+                narrower = sorted(casts - {'Binding', 'Variable'})
+                if 'Binding' in casts and not narrower:
+                    c.ok(R, inst)
+                elif casts:
+                    c.bad(R, '%s:scoped-flag-ignores-some-binders:%s' % (q.split('::')[-1], ','.join(narrower) or 'no-Binding-test'), '%s leaves the scope out of the name of a rec depending on %s: a rec that mentions only binders the test lets through (the binder of an enclosing rec) gets one name for every application of the function around it, and the instantiations alias' % (q, sorted(casts)), **inst)
+                else:
+                    c.skip(R, q, 'scoped argument is computed in a way the rule cannot read')
             elif v is None:
                 c.skip(R, q, 'scoped argument is not a constant')
             else:
